@@ -117,7 +117,9 @@ end Clock
 namespace Slru
 /-- probationary then protected segment -/
 def tracked (s : State) : List (Nat × Nat) := s.prob.items ++ s.prot.items
-def Inv (s : State) : Prop := s.prob.WF ∧ s.prot.WF ∧ (keys (tracked s)).Nodup
+/-- both segments well-formed and no key in both -/
+def Inv (s : State) : Prop :=
+  s.prob.WF ∧ s.prot.WF ∧ ∀ x, x ∈ keys s.prob.items → x ∉ keys s.prot.items
 def step (protCap : Nat) (s : State) : Op → State
   | .admit k c => (admit s k c).1
   | .access k c => access s k c protCap
@@ -130,7 +132,9 @@ end Slru
 namespace Arc
 /-- the resident lists T1, T2; the ghost lists B1, B2 hold keys that are NOT resident -/
 def tracked (s : State) : List (Nat × Nat) := s.t1.items ++ s.t2.items
-def Inv (s : State) : Prop := s.t1.WF ∧ s.t2.WF ∧ (keys (tracked s)).Nodup
+/-- T1, T2 well-formed and no key in both (nothing is required of the ghost lists) -/
+def Inv (s : State) : Prop :=
+  s.t1.WF ∧ s.t2.WF ∧ ∀ x, x ∈ keys s.t1.items → x ∉ keys s.t2.items
 def step (cap : Nat) (s : State) : Op → State
   | .admit k c => (admit s k c cap).1
   | .access k c => access s k c
@@ -143,7 +147,9 @@ end Arc
 namespace TinyLfu
 /-- admission window, then the main SLRU -/
 def tracked (s : State) : List (Nat × Nat) := s.window.items ++ Slru.tracked s.main
-def Inv (s : State) : Prop := s.window.WF ∧ s.main.prob.WF ∧ s.main.prot.WF ∧ (keys (tracked s)).Nodup
+/-- window and main SLRU well-formed and no key in both -/
+def Inv (s : State) : Prop :=
+  s.window.WF ∧ Slru.Inv s.main ∧ ∀ x, x ∈ keys s.window.items → x ∉ keys (Slru.tracked s.main)
 def step (cfg : Cfg) (s : State) : Op → State
   | .admit k c => (admit s cfg k c).1
   | .access k c => access s cfg k c
